@@ -145,7 +145,7 @@ def run(ctx):
         if "LazySlot" in b.path:
             # is_some() => return None, dominating Slot::new; mode forwarded to Slot::open
             iss = [c for c in b.calls() if c.name == "is_some"]
-            news = [c for c in b.calls() if c.name == "new" and "Slot" in c.def_]
+            news = [c for c in b.calls() if c.name.startswith("new") and "Slot" in c.def_]
             inner = [c for c in b.calls() if c.name == "open" and "Slot" in c.def_]
             ok = False
             for c in iss:
@@ -166,7 +166,34 @@ def run(ctx):
                         if "Some" in vm:
                             ok = ok or (not any(n.bb in b.reachable(some_t) for n in news) and all(dominates(b, i_, n.bb) for n in news))
             ctx.check(ok and bool(news), "R13.3", key + "#single-open", loc(b), "a lazily created slot can be opened (re-created) although one already exists")
-            ctx.check(len(inner) == 1 and any(x[0] == "arg" and x[1] == mp for x in pr.operand(inner[0].args[-1])), "R13.3", key + "#mode-forwarded", loc(b),
+            def _mode_reaches_guard(hb, pidx, depth=2):
+                """parameter pidx of hb ends up in a field of type OnParentDrop (the guard's mode), directly or through one more private fn"""
+                hpr = Prov(hb)
+                for i_ in hb.live_blocks():
+                    for s_ in hb.stmts(i_):
+                        if s_["k"] != "assign":
+                            continue
+                        if s_["rv"]["k"] == "agg" and s_["rv"].get("fields"):
+                            a_ = F.adts.get(s_["rv"].get("adt") or "")
+                            ftys = {f_["name"]: f_["ty"] for v_ in (a_ or {}).get("variants", []) for f_ in v_["fields"]}
+                            for fn_, op_ in zip(s_["rv"]["fields"], s_["rv"]["ops"]):
+                                if "OnParentDrop" in ftys.get(fn_, "") and any(x[0] == "arg" and x[1] == pidx for x in hpr.operand(op_)):
+                                    return True
+                        if any(e[0] == "f" and len(e) > 4 and "OnParentDrop" in e[4] for e in s_["lhs"].get("p", [])) and s_["rv"]["k"] == "use" and \
+                                any(x[0] == "arg" and x[1] == pidx for x in hpr.operand(s_["rv"]["op"])):
+                            return True
+                if depth > 0:
+                    for c_ in hb.calls():
+                        for ai_, a_ in enumerate(c_.args):
+                            if any(x[0] == "arg" and x[1] == pidx and not x[2] for x in hpr.operand(a_)):
+                                for h2 in local_callee_bodies(F, c_):
+                                    if h2.crate == MQ and h2.kind != "Closure" and len(c_.args) == h2.arg_count and _mode_reaches_guard(h2, ai_ + 1, depth - 1):
+                                        return True
+                return False
+            # ... or the slot is created already opened: the creating call receives the mode and puts it into the guard
+            created_open = [c for c in news for ai_, a_ in enumerate(c.args) if any(x[0] == "arg" and x[1] == mp for x in pr.operand(a_))
+                            and any(len(c.args) == hb.arg_count and _mode_reaches_guard(hb, ai_ + 1) for hb in local_callee_bodies(F, c) if hb.crate == MQ)]
+            ctx.check((len(inner) == 1 and any(x[0] == "arg" and x[1] == mp for x in pr.operand(inner[0].args[-1]))) or (not inner and len(created_open) == 1), "R13.3", key + "#mode-forwarded", loc(b),
                       "the requested parent-drop mode is not forwarded to Slot::open (the guard silently falls back to discard)")
             continue
         takes = [c for c in b.calls() if c.is_("core::option::Option::<T>::take")]
